@@ -6,6 +6,7 @@ from .. import core
 PROP = "C16"
 MODULE = "GmqttVerif.Properties.C16"
 THEOREMS = [
+    "GmqttVerif.FedSource.event_protocol_functions_as_transcribed",
     "GmqttVerif.Fed.applied_is_prefix_exactly_once",
     "GmqttVerif.Fed.applied_is_prefix_exactly_once_as_is_refuted",
     "GmqttVerif.Fed.unaligned_is_silent",
@@ -22,6 +23,8 @@ THEOREMS = [
     "GmqttVerif.Fed.localSubs_events_exactly_on_edges",
     "GmqttVerif.Fed.hook_event_reaches_every_peer",
 ]
+EXTRA_MODULES = ["GmqttVerif.Properties.FedSource"]
+NEEDS_FACTS = ["FedFuncs"]
 COMPS = ["fedqueue", "fedsession", "localsubs", "fedsim"]
 
 # ------------------------------------------------------------------ eventQueue
@@ -581,6 +584,24 @@ def streams(tier):
         (core.Stream("localsubs", "localsubs", gen_local, pred_local, nontriv_local, keep_prefix=1), 4000 * k),
         (core.Stream("fedsim", "fedsim", gen_sim, pred_sim, nontriv_sim, keep_prefix=1, timeout=600), 400 * k),
     ]
+
+def extra(r):
+    """readable form of the FedSource theorems: which transcribed function of plugin/federation changed"""
+    import os, re as _re
+    try:
+        gen = open(os.path.join(core.LEAN, "GmqttVerif", "Generated", "FedFuncs.lean")).read()
+        exp = open(os.path.join(core.LEAN, "GmqttVerif", "Properties", "FedSource.lean")).read()
+    except OSError:
+        return
+    names = _re.findall(r'"([^"]+)"', _re.search(r"def fedFuncNames : List String :=\s*\n\s*\[(.*?)\]\n", gen, _re.S).group(1))
+    got = _re.search(r"def fedFuncsH : List Nat :=\s*\n\s*\[(.*?)\]", gen, _re.S).group(1).split(", ")
+    want = dict((n, h) for h, n in _re.findall(r"(\d+)\s+/- ([\w.]+) -/", exp))
+    changed = [n for n, h in zip(names, got) if want.get(n) != h]
+    if changed:
+        body = ("# the body of these functions of plugin/federation is no longer the text the federation models transcribe\n"
+                "# (Properties/FedSource.lean); the streams run them in lock-step only, so orderings inside them that matter under\n"
+                "# concurrency are not observed: re-read the model against the new text\n" + "".join(f"# changed: {n}\n" for n in changed))
+        r.violation("fed-source", body, False, "transcribed federation functions changed: " + ", ".join(changed))
 
 def run(r):
     return core.standard_run(r, __import__(__name__, fromlist=["x"]))
